@@ -188,6 +188,22 @@ func genDoubleNotify(rng *rand.Rand, k int64, race bool) *History {
 	return h
 }
 
+// genManyReloads: 20..50 plain change notifications in a row, each fired with the loop idle and waited for
+// logically, while 2..8 goroutines log through the provider's logger: many swaps of the logger core.
+func genManyReloads(rng *rand.Rand) *History {
+	h := &History{Class: "many-reloads", Pollers: 2 + rng.Intn(7)}
+	h.Gens = []GenPlan{{NRecv: 1, NExp: 1}}
+	for n := 20 + rng.Intn(31); n > 0; n-- {
+		k := "watch"
+		if rng.Intn(6) == 0 {
+			k = "sighup"
+		}
+		h.Rounds = append(h.Rounds, Round{[]Action{{Kind: k}}})
+	}
+	h.Final.Actions = []Action{genAction(rng, stopPool[:6], false)}
+	return h
+}
+
 // directed reproducers of C20-a
 func directed(i int) *History {
 	base := []GenPlan{{NRecv: 2, NExp: 1}}
@@ -523,7 +539,11 @@ func runHistory(c *driver.Ctx, h *History, limit time.Duration) (hung, c20a bool
 		c.Inconclusive("NewCollector failed: " + err.Error())
 		return false, false
 	}
+	t0 := time.Now()
 	stuck := c.Guard(limit, r.progress, r.execute)
+	c.Observe("ms_spent_in_class_"+strings.SplitN(h.Class, ":", 2)[0], time.Since(t0).Milliseconds())
+	r.prov.stopPollers(stuck == nil) // never leak a logging goroutine into the next case (a deadlocked one cannot be joined)
+	c.Observe("lines_logged_through_the_provider_logger", r.prov.pollLines.Load())
 	canon := h.Canon()
 	if stuck != nil {
 		steps1 := r.steps.Load() // the watchdog saw no progress up to its dump; nothing may move from here on either
@@ -779,24 +799,45 @@ func run_(c *driver.Ctx) {
 	}
 	// back-to-back watcher notifications while the loop is busy (all ordered pairs over {change, error}, four
 	// triples) x five in-reload firing points
-	nn := int64(c.N(960, 16000))
+	nStuck := 0
+	nn := int64(c.N(480, 4800))
 	for i := int64(0); i < nn; i, g = i+1, g+1 {
 		if !c.Mine(g) {
 			continue
 		}
-		h := genDoubleNotify(c.CaseRand(g), i, c.Variant == "race")
+		rng := c.CaseRand(g)
+		h := genDoubleNotify(rng, i, c.Variant == "race")
+		h.Pollers = 2 + rng.Intn(7)
 		c.Observe("double_notify_histories", 1)
-		runHistory(c, h, limit)
+		if hung, _ := runHistory(c, h, limit); hung {
+			if nStuck++; nStuck > 4 {
+				break
+			}
+		}
 	}
-	n := int64(c.N(4800, 72000))
+	// many reloads in a row under concurrent logging through the provider's logger
+	nm := int64(c.N(32, 480))
+	for i := int64(0); i < nm; i, g = i+1, g+1 {
+		if !c.Mine(g) {
+			continue
+		}
+		h := genManyReloads(c.CaseRand(g))
+		c.Observe("many_reload_histories", 1)
+		if hung, _ := runHistory(c, h, limit); hung {
+			nStuck++
+		}
+	}
+	n := int64(c.N(3200, 60000))
 	steered := int64(0)
-	nStuck := 0
 	for i := int64(0); i < n; i, g = i+1, g+1 {
 		if !c.Mine(g) {
 			continue
 		}
 		rng := c.CaseRand(g)
 		h := genHistory(rng)
+		if i%8 == 0 {
+			h.Pollers = 2 + rng.Intn(7) // every eighth random history runs under concurrent provider logging too
+		}
 		if h.hangProne() && c.Only < 0 && defect {
 			steered++
 			continue
@@ -806,9 +847,9 @@ func run_(c *driver.Ctx) {
 			defect = true // the defect is there after all: stop steering into it
 		}
 		if hung {
-			if nStuck++; nStuck > 12 {
-				c.Note("more than 12 stuck collectors in this child, stopping early")
-				c.Inconclusive("child stopped early after 12 stuck collectors")
+			if nStuck++; nStuck > 4 {
+				c.Note("more than 4 stuck collectors in this child, stopping early")
+				c.Inconclusive("child stopped early after several stuck collectors")
 				break
 			}
 		}
